@@ -23,7 +23,7 @@ DIMS = dict(
     horizon=["fixed", "Tfree", "t0free", "Tparam"],
     state=["vec2", "scalar"],
     pc=[None, "control", "control+", "both"],
-    vc=[None, "control", "control+", "both"],
+    vc=[None, "control", "control+", "both", "two"],
 )
 
 
